@@ -24,7 +24,8 @@ Record marker := mkMarker {
   m_file : string;
   m_type : string;
   m_kind : mkind;
-  m_k_send : bool; m_k_sync : bool; m_v_send : bool; m_v_sync : bool   (* bounds of the unsafe impl *)
+  m_k_send : bool; m_k_sync : bool; m_v_send : bool; m_v_sync : bool;  (* bounds of the unsafe impl on K and V *)
+  m_others : list (string * bool * bool)   (* every other type parameter of the impl: (name, bound by Send, bound by Sync) *)
 }.
 
 (** what an iterator type hands out: &K, &V, &mut V *)
